@@ -238,7 +238,7 @@ func (w *world) newSandbox(p *podT) *sandbox {
 	w.nextSB++
 	sb := &sandbox{id: fmt.Sprintf("sb%d", w.nextSB), pod: p, alive: true, want: 1}
 	sb.handle = "k8s-pod-network." + sb.id
-	if w.src.Chance(300, "sandbox_two_addrs") {
+	if w.src.Chance(400, "sandbox_two_addrs") {
 		sb.want = 2
 		sb.single = w.src.Chance(600, "k8s_reports_one_addr")
 	}
@@ -645,7 +645,7 @@ func (i *informer) run(ctx context.Context) {
 		}
 		if !w.quiesced && src.Chance(w.pInfStall, "inf_stall") {
 			g := int(w.grace / time.Millisecond)
-			ms := []int{1000, 3000, g / 2, g + 2000}[src.Intn(4, "inf_stall_len")]
+			ms := []int{1000, 3000, g / 2, g + 2000, 2*g + 3000}[src.Weighted([]int{3, 3, 2, 2, 2}, "inf_stall_len")]
 			w.r.Fault("informer_stall")
 			w.r.Logf("  informer stalls for %dms", ms)
 			time.Sleep(time.Duration(ms) * time.Millisecond)
@@ -694,14 +694,14 @@ type feed struct {
 	applied  int                    // prefix of pushed the controller has taken off its queue
 	view     map[string]*blockView  // blocks as applied by the controller
 	inSync   bool
-	started  bool
+	keys     map[string]model.Key
 	wk       waiter
 	closed   bool
 	syncAt   time.Duration
 }
 
 func newFeed(w *world) *feed {
-	return &feed{w: w, pending: map[string][]*feedItem{}, last: map[string]*feedItem{}, view: map[string]*blockView{}}
+	return &feed{w: w, pending: map[string][]*feedItem{}, last: map[string]*feedItem{}, view: map[string]*blockView{}, keys: map[string]model.Key{}}
 }
 
 // interesting: the kinds the controller's syncer watches.
@@ -725,6 +725,7 @@ func (f *feed) onWrite(key model.Key) {
 		return
 	}
 	f.seq++
+	f.keys[ks] = key
 	it := &feedItem{seq: f.seq, key: ks, kv: model.KVPair{Key: key}}
 	if kv := f.w.st.Peek(key); kv != nil {
 		it.kv = *kv
@@ -788,6 +789,16 @@ func (f *feed) advance() {
 	}
 }
 
+// knownKeys: every key the feed ever carried, in a fixed order (a resync re-sends their current state, deletions
+// included).
+func (f *feed) knownKeys() []model.Key {
+	var out []model.Key
+	for _, ks := range sortedKeys(f.keys) {
+		out = append(out, f.keys[ks])
+	}
+	return out
+}
+
 func (f *feed) pendingKeys() []string {
 	var ks []string
 	for _, k := range sortedKeys(f.pending) {
@@ -834,6 +845,20 @@ func (f *feed) run(ctx context.Context) {
 				w.kickChecker()
 				f.push(&feedItem{status: &st})
 			}
+			continue
+		}
+		if !w.quiesced && f.inSync && src.Chance(w.pFeedResync, "feed_resync") {
+			// the syncer lost its connection: it reports resync-in-progress, re-sends the current value of every
+			// key (behind whatever is still queued for that key) and then reports in-sync again
+			st := bapi.ResyncInProgress
+			f.inSync = false
+			f.syncAt = w.now() + time.Duration(src.Intn(4, "resync_delay"))*time.Second
+			r.Fault("feed_resync")
+			r.Logf("  feed: resync in progress")
+			for _, k := range f.knownKeys() {
+				f.onWrite(k)
+			}
+			f.push(&feedItem{status: &st})
 			continue
 		}
 		if !w.quiesced && src.Chance(w.pFeedStall, "feed_stall") {
